@@ -17,7 +17,7 @@ func leaves(thorough bool) []*Node {
 		NInt(KInt, false, -1), NInt(KInt, false, 0), one, NInt(KInt, false, 7), NInt(KInt, true, 1),
 		NInt(KInt8, false, 1), NInt(KInt16, false, 1), NInt(KInt32, false, 1), NInt(KInt64, false, 1),
 		NUint(KUint, false, 1), NUint(KUint8, false, 1), NUint(KUint16, false, 1), NUint(KUint32, false, 1), NUint(KUint64, false, 1),
-		NFloat(KFloat32, false, 1.5), NFloat(KFloat64, false, 1), NFloat(KFloat64, false, 1.5), NFloat(KFloat64, true, 1.5),
+		NFloat(KFloat32, false, 1.5), NFloat(KFloat64, false, 1), NFloat(KFloat64, false, 1.5), NFloat(KFloat64, true, 1.5), NFloat(KFloat32, false, 1.0000001192092896),
 		str(""), str("a"), str("1"), str("true"), NStr(true, "a"),
 		NJSON("1"), NJSON("1.5"), NJSON("1e3"), NJSON("zz"),
 		NNilAny(), NPtr(one), NNilPtr(TInt), NPtr(NPtr(one)), NPtr(str("a")),
@@ -198,7 +198,9 @@ func docs(thorough bool) []*Node {
 
 // ---------- expression universe ----------
 
-var lits = []string{"", "a", "b", "1", "0", "-1", "1.5", "true", "T", "0x1", "1_0", "1e3", "inf", "99999999999999999999", "abc", "a+", "(", "7", "1.0", "+1", "1000", "/a/b", "nothing", "http"}
+var lits = []string{"", "a", "b", "1", "0", "-1", "1.5", "true", "T", "0x1", "1_0", "1e3", "inf", "99999999999999999999", "abc", "a+", "(", "7", "1.0", "+1", "1000", "/a/b", "nothing", "http",
+	// beyond the float32 range / beside a float32 rounding midpoint (the literal must be read in the width of the value)
+	"1e39", "1.00000005960464477539062500000000000001"}
 
 var selsQuick = [][]string{{"a"}, {"b"}, {"a", "a"}, {"a", "b"}, {"a", "c"}, {"a", "0"}, {"a", "1"}, {"a", "2"}, {"a", "true"}, {"a", "A"}, {"a", "H"}, {"a", "u"},
 	{"a", "a", "a"}, {"a", "0", "a"}, {"a", "a", "0"}, {"a", "0", "0"}, {"a", "a", "c"}, {"a", ""}, {"a", "x"}, {"a", "01"}}
